@@ -122,7 +122,7 @@ var buildClasses = []struct {
 }
 
 func runC01(e *env) error {
-	e.rep.Rule = "cases = (a) random operation sequences (Name with bases from a pool of the identifiers goverter itself uses, Index, Map, Register) on namer.Namer vs Gv.Namer; (b) projects stressing names and layout: the user's package named like identifiers the generated code uses (source, target, context, c, i, key, value, err, fmt, errors, …), 1-37 nested slice levels (index variables i..z, i2..), double pointers, nested maps, recursive types, unexported fields, the three output formats and custom struct names; the goverter binary is run, then assertion files are added (var _ pkg.Conv = &Impl{}, function signatures, variables non-nil after init) and the whole module is compiled with `go build ./...`; (c) pinned cases for the defect classes seen while reading. A successful run whose output does not compile or does not implement the declared API is a violation. non-trivial = every case; distinct = project text"
+	e.rep.Rule = "cases = (a) random operation sequences (Name with bases from a pool of the identifiers goverter itself uses, Index, Map, Register) on namer.Namer vs Gv.Namer; (b) projects stressing names and layout: the user's package named like identifiers the generated code uses (source, target, context, c, i, key, value, err, fmt, errors, …), 1-37 nested slice levels (index variables i..z, i2..), double pointers, nested maps, recursive types, unexported fields, the three output formats and custom struct names; the goverter binary is run, then assertion files are added (var _ pkg.Conv = &Impl{}, function signatures, variables non-nil after init) and the whole module is compiled with `go build ./...`; (c) pinned cases for the defect classes seen while reading; (d) the converter families of the other campaigns (custom functions incl. T->T and converted map keys, default constructors over the pointer shapes, update methods, field mappings, enums across packages, source-struct methods) generated in process and compiled as one module. A successful run whose output does not compile or does not implement the declared API is a violation. non-trivial = every case; distinct = project text"
 	r := e.r.Fork(1)
 	// (a) namer
 	nSeq := 3000
@@ -241,5 +241,33 @@ func runC01(e *env) error {
 	}
 	sort.Strings(ks)
 	e.rep.Note("projects: %s", strings.Join(ks, " "))
+	// (d) every converter family of the other campaigns (custom functions, default constructors, update methods, field
+	// mappings, enums, source-struct methods), generated and compiled together with assertion-free registration code
+	per := 10
+	if e.thorough {
+		per = 60
+	}
+	rf := e.r.Fork(101)
+	var fs []*famOut
+	for i := 0; i < per; i++ {
+		fs = append(fs, famExtend(rf, i), famDefault(rf, i), famUpdate(rf, i), famFields(rf, i), famEnum(rf, i), famMethods(rf, i))
+	}
+	res, err := runK2(e, "c01fam", []*k2Batch{merge(fs...).batch("families-compile", 0)})
+	if err != nil {
+		return err
+	}
+	e.rep.Eval(res.Generated)
+	for _, be := range res.BuildErrors {
+		class := ""
+		for _, bc := range buildClasses {
+			if bc.re.MatchString(be) {
+				class = bc.class
+				break
+			}
+		}
+		e.rep.Violation(class, map[string]any{"compiler_output": truncate(be, 3000),
+			"broken": "C01: goverter reported success for every converter of the batch but the emitted code does not compile"}, false)
+	}
+	e.rep.Note("family converters generated and compiled together: %d", res.Generated)
 	return nil
 }
